@@ -11,7 +11,8 @@ import WcModel.Model.WinDrive
      same `Re.strip` accept the same subjects.  The check computes the certificate
      `strip (toRe (parse {translate} p)) = strip (toRe (parse p))` for every sampled pattern —
      per pattern that is a *proof of language equality for every name*, not a sample of names.
-  Not proved: that the certificate holds for every pattern (it is evaluated, 100% so far);
+  That the certificate holds for EVERY pattern string and configuration is proved in
+  `Properties/C08all.lean` (`translate_twin`, `translate_twin_fullMatch`, `translate_capture_exact`);
   the list level (`translate` / `compile_pattern` route identically) is C07's model.
 -/
 namespace WcModel.C08
